@@ -234,3 +234,51 @@ def width_pair(ctx, repo):
 
 
 ALL.append(width_pair)
+
+
+# ---------------------------------------------------------------------------
+# T2-WIDTH: the optional width sits at the BOTTOM of the stack of the first stack-clearing operator
+# ---------------------------------------------------------------------------
+WIDTH_OPS = ("endchar", "rmoveto", "hmoveto", "vmoveto", "hstem", "vstem", "hstemhm", "vstemhm", "hintmask", "cntrmask")
+
+
+def width_bottom(ctx, repo):
+    ctx.rule("T2-WIDTH", "a Type 2 handler of a width-bearing operator (endchar, *moveto, *stem*, *mask) that takes the whole stack with popall() -- not the width-aware popallWidth() -- reads its operands from the top of the stack only (negative indices / tail slices): the optional advance width, when present, is the first item, so counting from the front picks the width up as an operand", floor=1)
+    n = 0
+    for rel in sorted(repo.rels()):
+        m = repo.mod(rel)
+        for q, c in sorted(m.classes.items()):
+            if c.name.startswith("T1") or not repo.is_subclass(c, "SimpleT2Decompiler"):
+                continue
+            for op in WIDTH_OPS:
+                f = c.methods.get("op_" + op)
+                if f is None:
+                    continue
+                for st in walk_no_nested(f.node):
+                    if not (isinstance(st, ast.Assign) and isinstance(st.value, ast.Call) and norm(st.value.func) == "self.popall" and isinstance(st.targets[0], ast.Name)):
+                        continue
+                    a = st.targets[0].id
+                    uses = []
+                    for x in walk_no_nested(f.node):
+                        if isinstance(x, ast.Subscript) and isinstance(x.value, ast.Name) and x.value.id == a and isinstance(x.ctx, ast.Load):
+                            sl = x.slice
+                            if isinstance(sl, ast.Slice):
+                                lo = try_fold(sl.lower) if sl.lower is not None else None
+                                tail = isinstance(lo, int) and lo < 0 and sl.upper is None
+                                uses.append((norm(x), tail))
+                            else:
+                                k = try_fold(sl)
+                                uses.append((norm(x), isinstance(k, int) and k < 0))
+                        elif isinstance(x, ast.Assign) and isinstance(x.targets[0], (ast.Tuple, ast.List)) and isinstance(x.value, ast.Name) and x.value.id == a:
+                            uses.append((norm(x), False))  # a, b, c, d = args: counts from the front
+                    if not uses:
+                        continue
+                    n += 1
+                    ctx.consult(rel)
+                    bad = [u for u, ok in uses if not ok]
+                    ctx.ob("T2-WIDTH", f.where, f"{a} = self.popall(): operands read as {[u for u, _ in uses]}", not bad, "" if not bad else f"{bad[0]} counts from the bottom of the stack, where an advance width may sit")
+    if n < 1:
+        raise AnalysisError("T2-WIDTH: no popall()-based width-bearing handler found (subset/cff.py op_endchar confirmed by hand)")
+
+
+ALL.append(width_bottom)
